@@ -35,8 +35,12 @@ struct HLog
   void exit(const std::string &t) { uint64_t n = vf::nowNs(); std::lock_guard<std::mutex> g(m); e[t].exit = n; }
   HEntry get(const std::string &t) { std::lock_guard<std::mutex> g(m); auto it = e.find(t); return it == e.end() ? HEntry{} : it->second; }
   void clear() { std::lock_guard<std::mutex> g(m); e.clear(); }
+  void erase(const std::string &t) { std::lock_guard<std::mutex> g(m); e.erase(t); }
 };
 static HLog gLog;
+// race mode: the handler of request A publishes the moment it returns, so the client thread of that
+// connection can place request B at a seeded offset right behind it (handler code is harness code)
+static std::atomic<uint64_t> gHandlerExitNs[64];
 struct HGuard
 {
   std::string t;
@@ -78,6 +82,14 @@ static void registerRoutes(HttpServer &srv, bool defHandler)
       vf::sleepMs(double(qnum(req, "ms", 0)));
       res.status = status;
       res.set_content(mkBody(tok, size_t(qnum(req, "n", 0))), "text/plain");
+      uint64_t slot = qnum(req, "slot", 64);
+      if (slot < 64)
+      {
+        // publish when this handler will return, then run exactly that long (a short, busy handler)
+        uint64_t t1 = vf::nowNs() + qnum(req, "spin", 0) * 1000;
+        gHandlerExitNs[slot].store(t1);
+        while (vf::nowNs() < t1) { }
+      }
     };
   };
   srv.onGet("/w/:tok", plain(200));
@@ -352,6 +364,7 @@ struct Pacer
   size_t off = 0;
   unsigned count = 0;
   bool atBoundary = true;
+  std::vector<std::string> *toks = nullptr; // if set: X-Token of every counted response, in order
   static bool ieq(const std::string &a, const char *b)
   {
     size_t n = strlen(b);
@@ -401,6 +414,7 @@ struct Pacer
       if (rx.size() < he + 4 + body) return;
       off = he + 4 + body;
       count++;
+      if (toks) toks->push_back(status == 200 ? tok : std::string("?"));
     }
   }
 };
@@ -558,6 +572,341 @@ static std::string jReq(const Req &r, const HEntry &h, uint64_t sendNs, size_t r
   return s;
 }
 
+static void emitConn(const Conn &cc, unsigned nconn, bool defHandler, uint32_t sendcap, const std::string &profile,
+                     const std::string &extra = std::string())
+{
+  const Conn *c = &cc;
+  auto &O = vf::out();
+  std::string s = "{\"t\":\"conn\",\"scn\":" + std::to_string(c->scn) + ",\"conn\":" + std::to_string(c->idx) +
+                  ",\"nconn\":" + std::to_string(nconn) +
+                  ",\"pipe\":" + (c->pipe ? "1" : "0") + ",\"depth\":" + std::to_string(c->depth) +
+                  ",\"slow\":" + (c->slow ? "1" : "0") + ",\"slow_us\":" + std::to_string(c->slowUs) +
+                  ",\"read_chunk\":" + std::to_string(c->readChunk) + ",\"rcvbuf\":" + std::to_string(c->rcvbuf) +
+                  ",\"defh\":" + (defHandler ? "1" : "0") + ",\"sendcap\":" + std::to_string(sendcap) +
+                  ",\"profile\":" + vf::jstr(profile) +
+                  ",\"eof\":" + vf::jstr(c->eof) + ",\"stop\":" + vf::jstr(c->stop) +
+                  ",\"send_err\":" + (c->sendErr ? "1" : "0") + ",\"segments\":" + std::to_string(c->segments) +
+                  ",\"t_connect\":" + std::to_string(c->tConnect) + ",\"t_last_send\":" + std::to_string(c->tLastSend) +
+                  ",\"t_last_byte\":" + std::to_string(c->tLastByte) + ",\"t_eof\":" + std::to_string(c->tEof) +
+                  ",\"t_end\":" + std::to_string(c->tEnd) + ",\"reqs\":[";
+  for (size_t i = 0; i < c->reqs.size(); i++)
+  {
+    if (i) s += ",";
+    s += jReq(c->reqs[i], gLog.get(c->reqs[i].token), i < c->sendNs.size() ? c->sendNs[i] : 0,
+              i < c->rxAtSend.size() ? c->rxAtSend[i] : 0);
+  }
+  s += "],\"rx\":\"" + vf::hex(c->rx) + "\"}";
+  s.insert(s.size() - 1, extra);
+  O.line(s);
+  O.obs("h_connections");
+  O.obs("h_requests_sent", c->reqs.size());
+}
+
+// --------------------------------------------------------------------------- race mode
+// "Request N+1 arrives just as response N is being finished": many rounds per keep-alive
+// connection; each round writes request A, then request B in a separate write at a seeded offset
+// (relative to sending A / to the measured response latency / to the first byte of response A),
+// then reads both responses. Several such connections plus hammer connections run in parallel so
+// the server's session bookkeeping is contended. A round whose answers stop arriving for stallMs
+// while the connection stays open is a SUSPECT: the client then sends one more request (the kick)
+// on the same connection and records what happened. The verdict is computed in lib/props/c16.py
+// (reference framer on the dumped chunk + handler-entry times vs. kick time). To bound the volume
+// only the first chunk of every connection, every chunk with an anomaly in the light in-order
+// token check below, and every chunk with a stall suspect are dumped; the others are counted.
+struct RaceCfg
+{
+  unsigned rounds = 4000, chunkRounds = 200, stallMs = 1000, silenceMs = 8000, hammers = 2;
+};
+static std::atomic<uint64_t> gProgress{0};
+static std::atomic<bool> gRaceStop{false};
+
+static int rawConnect(int port)
+{
+  int fd = ::socket(AF_INET, SOCK_STREAM | SOCK_CLOEXEC, 0);
+  if (fd < 0) return -1;
+  sockaddr_in a{};
+  a.sin_family = AF_INET;
+  a.sin_port = htons(uint16_t(port));
+  inet_pton(AF_INET, "127.0.0.1", &a.sin_addr);
+  for (int tries = 0; tries < 50; tries++)
+  {
+    if (::connect(fd, (sockaddr *)&a, sizeof a) == 0)
+    {
+      int one = 1;
+      setsockopt(fd, IPPROTO_TCP, TCP_NODELAY, &one, sizeof one);
+      return fd;
+    }
+    vf::sleepMs(20);
+  }
+  ::close(fd);
+  return -1;
+}
+static bool sendAll(int fd, const std::string &d)
+{
+  size_t w = 0;
+  while (w < d.size())
+  {
+    ssize_t n = ::send(fd, d.data() + w, d.size() - w, MSG_NOSIGNAL);
+    if (n > 0) { w += size_t(n); continue; }
+    if (n < 0 && errno == EINTR) continue;
+    return false;
+  }
+  return true;
+}
+static inline void spinUntil(uint64_t tNs)
+{
+  uint64_t now = vf::nowNs();
+  if (tNs > now + 200000) vf::sleepMs(double(tNs - now - 120000) / 1e6); // coarse part asleep, only the tail is spun
+  while (vf::nowNs() < tNs) { }
+}
+
+static Req raceReq(const std::string &tok, unsigned ms, size_t n, int slot = -1)
+{
+  Req r;
+  r.kind = "w"; r.method = "GET"; r.token = tok; r.ms = ms; r.n = n;
+  r.raw = "GET /w/" + tok + "?ms=" + std::to_string(ms) + "&n=" + std::to_string(n) +
+          (slot >= 0 ? "&slot=" + std::to_string(slot) + "&spin=120" : std::string()) + " HTTP/1.1\r\nHost: c16\r\n\r\n";
+  return r;
+}
+
+static void hammerConn(int port, uint64_t seed, int hi)
+{
+  vf::shim::tlsSockExempt = true;
+  int fd = rawConnect(port);
+  if (fd < 0) return;
+  std::string rx;
+  std::vector<char> buf(65536);
+  uint64_t k = 0;
+  while (!gRaceStop.load())
+  {
+    std::string wire;
+    std::vector<std::string> toks;
+    for (int i = 0; i < 4; i++)
+    {
+      toks.push_back("h" + std::to_string(seed) + "x" + std::to_string(hi) + "r" + std::to_string(k++));
+      wire += raceReq(toks.back(), 0, 40).raw;
+    }
+    if (!sendAll(fd, wire)) break;
+    Pacer pc;
+    rx.clear();
+    uint64_t t0 = vf::nowNs();
+    while (pc.count < 4 && vf::nowNs() - t0 < 10000000000ull)
+    {
+      pollfd p{fd, POLLIN, 0};
+      if (::poll(&p, 1, 50) <= 0) continue;
+      ssize_t n = ::recv(fd, buf.data(), buf.size(), 0);
+      if (n <= 0) { if (n < 0 && (errno == EINTR || errno == EAGAIN)) continue; goto out; }
+      rx.append(buf.data(), size_t(n));
+      pc.update(rx);
+    }
+    for (auto &t : toks) gLog.erase(t);
+    if (pc.count < 4) break;
+    gProgress.fetch_add(4);
+    vf::out().obs("race_hammer_requests", 4);
+  }
+out:
+  ::close(fd);
+}
+
+static void raceConn(int scn, int ci, unsigned nconn, int port, const RaceCfg &cfg, uint64_t seed, bool defHandler,
+                     uint32_t sendcap)
+{
+  auto &O = vf::out();
+  vf::shim::tlsSockExempt = true;
+  vf::Rng rng(seed, uint64_t(scn) * 1000 + uint64_t(ci) + 424242);
+  int fd = rawConnect(port);
+  Conn ch; // current chunk
+  auto resetChunk = [&]()
+  {
+    ch = Conn();
+    ch.scn = scn; ch.idx = ci; ch.pipe = true; ch.depth = 2;
+    ch.tConnect = vf::nowNs();
+  };
+  resetChunk();
+  if (fd < 0) { ch.stop = "connect-failed"; emitConn(ch, nconn, defHandler, sendcap, "race"); return; }
+  std::vector<char> buf(65536);
+  Pacer pc;
+  std::vector<std::string> seenToks;
+  pc.toks = &seenToks;
+  uint64_t lastProgress = vf::nowNs();
+  unsigned chunkIdx = 0;
+  bool anomaly = false;
+  std::vector<uint64_t> lat; // recent latencies send(A) -> first byte of response A (ns)
+  uint64_t cls[5] = {0, 0, 0, 0, 0}, near100 = 0, bBeforeRespA = 0;
+  unsigned stalls = 0;
+
+  auto readStep = [&](int waitMs) -> bool
+  {
+    pollfd p{fd, POLLIN, 0};
+    if (::poll(&p, 1, waitMs) <= 0) return true;
+    ssize_t n = ::recv(fd, buf.data(), buf.size(), 0);
+    if (n > 0) { ch.rx.append(buf.data(), size_t(n)); ch.tLastByte = lastProgress = vf::nowNs(); return true; }
+    if (n == 0) { ch.eof = "fin"; ch.tEof = vf::nowNs(); return false; }
+    if (errno == EINTR || errno == EAGAIN) return true;
+    ch.eof = "rst"; ch.tEof = vf::nowNs();
+    return false;
+  };
+  auto sendReq = [&](Req &&r) -> bool
+  {
+    bool ok = sendAll(fd, r.raw);
+    ch.sendNs.push_back(vf::nowNs());
+    ch.rxAtSend.push_back(ch.rx.size());
+    ch.reqs.push_back(std::move(r));
+    ch.tLastSend = ch.sendNs.back();
+    if (!ok) ch.sendErr = true;
+    return ok;
+  };
+  auto finishChunk = [&](bool force, const std::string &extra)
+  {
+    ch.tEnd = vf::nowNs();
+    if (force || anomaly || chunkIdx == 0)
+    {
+      emitConn(ch, nconn, defHandler, sendcap, "race", ",\"chunk\":" + std::to_string(chunkIdx) + extra);
+      O.obs("race_chunks_dumped");
+    }
+    else
+      O.obs("race_rounds_light_checked_only", ch.reqs.size() / 2);
+    for (auto &r : ch.reqs) gLog.erase(r.token);
+    chunkIdx++;
+    anomaly = false;
+    resetChunk();
+    pc = Pacer();
+    seenToks.clear();
+    pc.toks = &seenToks;
+  };
+
+  bool ended = false;
+  for (unsigned r = 0; r < cfg.rounds && !ended; r++)
+  {
+    char tb[96];
+    snprintf(tb, sizeof tb, "s%" PRIu64 "x%dc%dr%u", seed, scn, ci, r);
+    std::string ta = std::string(tb) + "a", tbk = std::string(tb) + "b";
+    unsigned msA = rng.chance(0.15) ? 1 : 0;
+    unsigned c = 3;
+    if (r >= 40) { unsigned v = unsigned(rng.below(100)); c = v < 60 ? 4 : (v < 80 ? 2 : (v < 90 ? 1 : 3)); }
+    if (c == 2 && lat.size() < 8) c = 3;
+    if (c == 4 && ci >= 64) c = 2;
+    cls[c]++;
+    size_t rxBeforeA = ch.rx.size();
+    if (c == 4) gHandlerExitNs[ci].store(0);
+    if (!sendReq(raceReq(ta, msA, 24 + size_t(rng.below(60)), c == 4 ? ci : -1))) { ch.stop = "eof"; break; }
+    uint64_t tA = ch.sendNs.back();
+    uint64_t delayUs = 0;
+    if (c == 1) { delayUs = rng.below(301); spinUntil(tA + delayUs * 1000); }
+    else if (c == 2)
+    {
+      std::vector<uint64_t> v(lat);
+      std::nth_element(v.begin(), v.begin() + v.size() / 2, v.end());
+      uint64_t med = v[v.size() / 2], x = rng.below(121) * 1000;
+      delayUs = (med > x ? med - x : 0) / 1000;
+      spinUntil(tA + delayUs * 1000);
+    }
+    else if (c == 4)
+    {
+      // B at a seeded offset after the handler of A has returned (the worker is just finishing A)
+      uint64_t hx = 0;
+      while ((hx = gHandlerExitNs[ci].load()) == 0 && vf::nowNs() - tA < 20000000ull) { }
+      if (hx == 0) hx = vf::nowNs();
+      // hx = the moment the handler of A returns; B is written from 100 us before to 20 us after it
+      delayUs = rng.below(121);
+      spinUntil(hx + delayUs * 1000 - 100000);
+    }
+    else
+    {
+      pollfd p{fd, POLLIN, 0};
+      ::poll(&p, 1, int(cfg.stallMs));
+      uint64_t tFirst = vf::nowNs();
+      if (msA == 0) { if (lat.size() >= 31) lat.erase(lat.begin()); lat.push_back(tFirst - tA); }
+      delayUs = rng.below(61);
+      spinUntil(tFirst + delayUs * 1000);
+    }
+    bool respASeen;
+    { pollfd p{fd, POLLIN, 0}; respASeen = ::poll(&p, 1, 0) > 0 || ch.rx.size() != rxBeforeA; }
+    if (!sendReq(raceReq(tbk, 0, 24 + size_t(rng.below(60))))) { ch.stop = "eof"; break; }
+    uint64_t tB = ch.sendNs.back();
+    if (!respASeen) bBeforeRespA++;
+    uint64_t progAtB = gProgress.load();
+    lastProgress = vf::nowNs();
+    bool firstByteTimed = respASeen;
+    const size_t sent = ch.reqs.size();
+    bool stalled = false;
+    for (;;)
+    {
+      pc.update(ch.rx);
+      if (pc.count >= sent && pc.atBoundary) break;
+      if (!readStep(20)) { ch.stop = "eof"; ended = true; break; }
+      if (!firstByteTimed && ch.rx.size() != rxBeforeA)
+      {
+        firstByteTimed = true;
+        uint64_t d = ch.tLastByte > tB ? ch.tLastByte - tB : 0;
+        if (d < 100000) near100++;
+      }
+      if (vf::nowNs() - lastProgress > uint64_t(cfg.stallMs) * 1000000ull) { stalled = true; break; }
+    }
+    if (ended) break;
+    if (stalled)
+    {
+      // suspect: probe with one more request on the same connection
+      O.obs("race_stall_suspects");
+      uint64_t others = gProgress.load() - progAtB;
+      unsigned answeredBefore = pc.count;
+      size_t kickIdx = ch.reqs.size();
+      sendReq(raceReq(std::string(tb) + "k", 0, 32));
+      lastProgress = vf::nowNs();
+      bool all = false;
+      for (;;)
+      {
+        pc.update(ch.rx);
+        if (pc.count >= ch.reqs.size() && pc.atBoundary) { all = true; break; }
+        if (!readStep(20)) { ch.stop = "eof"; break; }
+        if (vf::nowNs() - lastProgress > uint64_t(cfg.silenceMs) * 1000000ull) break;
+      }
+      if (ch.stop == "?") ch.stop = all ? "settled" : "silence";
+      char ex[320];
+      snprintf(ex, sizeof ex, ",\"stall\":{\"first_unanswered\":%u,\"kick\":%zu,\"stall_ms\":%u,\"others_progress\":%" PRIu64
+               ",\"all_answered_after_kick\":%d,\"delay_class\":%u,\"delay_us\":%" PRIu64 ",\"round\":%u}",
+               answeredBefore, kickIdx, cfg.stallMs, others, all ? 1 : 0, c, delayUs, r);
+      bool goOn = all && ++stalls < 3;
+      finishChunk(true, ex);
+      if (!goOn) { ended = true; break; }
+      continue;
+    }
+    // light in-order check (selects chunks for the full judgement, judges nothing)
+    if (seenToks.size() < 2 || seenToks[seenToks.size() - 2] != ta || seenToks.back() != tbk) anomaly = true;
+    gProgress.fetch_add(2);
+    if ((r + 1) % cfg.chunkRounds == 0) { ch.stop = "settled"; finishChunk(false, ""); }
+  }
+  if (!ended && !ch.reqs.empty()) { if (ch.stop == "?") ch.stop = "settled"; finishChunk(ch.stop != "settled", ""); }
+  else if (ended && !ch.reqs.empty() && ch.stop == "eof") finishChunk(true, "");
+  ::close(fd);
+  O.obs("race_rounds", cls[1] + cls[2] + cls[3] + cls[4]);
+  O.obs("race_rounds_b_at_offset_after_handler_of_a_returned", cls[4]);
+  O.obs("race_rounds_b_at_offset_after_sending_a", cls[1]);
+  O.obs("race_rounds_b_at_measured_latency_minus_x", cls[2]);
+  O.obs("race_rounds_b_after_first_byte_of_response_a", cls[3]);
+  O.obs("race_rounds_b_written_before_response_a_arrived", bBeforeRespA);
+  O.obs("race_rounds_response_a_arrived_within_100us_after_b_was_written", near100);
+  if (!lat.empty())
+  {
+    std::vector<uint64_t> v(lat);
+    std::nth_element(v.begin(), v.begin() + v.size() / 2, v.end());
+    O.obsMax("race_median_response_latency_us_max_over_connections", v[v.size() / 2] / 1000);
+  }
+}
+
+static void runRaceScenario(int scn, unsigned nconn, int port, const RaceCfg &cfg, uint64_t seed, bool defHandler, uint32_t sendcap)
+{
+  gLog.clear();
+  gRaceStop.store(false);
+  std::vector<std::thread> hs, cs;
+  for (unsigned h = 0; h < cfg.hammers; h++) hs.emplace_back([=]() { hammerConn(port, seed + uint64_t(scn), int(h)); });
+  for (unsigned ci = 0; ci < nconn; ci++)
+    cs.emplace_back([=, &cfg]() { raceConn(scn, int(ci), nconn, port, cfg, seed, defHandler, sendcap); });
+  for (auto &t : cs) t.join();
+  gRaceStop.store(true);
+  for (auto &t : hs) t.join();
+}
+
 int main(int argc, char **argv)
 {
   vf::Args args(argc, argv);
@@ -607,6 +956,18 @@ int main(int argc, char **argv)
     sp.mode.store(1);
   }
 
+  if (profile == "race")
+  {
+    RaceCfg rc;
+    rc.rounds = unsigned(args.u("rounds", 4000));
+    rc.chunkRounds = unsigned(args.u("chunk-rounds", 200));
+    rc.stallMs = unsigned(args.u("stall-ms", 1000));
+    rc.silenceMs = to.silenceMs;
+    rc.hammers = unsigned(args.u("hammers", 2));
+    for (uint64_t scn = from; scn < from + count; scn++)
+      runRaceScenario(int(scn), unsigned(args.u("raceconns", 8)), port, rc, seed, defHandler, sendcap);
+  }
+  else
   for (uint64_t scn = from; scn < from + count; scn++)
   {
     vf::Rng rng(seed, scn * 2 + (defHandler ? 1 : 0) + uint64_t(sendcap) * 1000003ull + (pf.slow ? 7777 : 0));
@@ -668,28 +1029,7 @@ int main(int argc, char **argv)
     for (auto &c : conns)
     {
       if (onlyConn >= 0 && c->idx != onlyConn) continue;
-      std::string s = "{\"t\":\"conn\",\"scn\":" + std::to_string(c->scn) + ",\"conn\":" + std::to_string(c->idx) +
-                      ",\"nconn\":" + std::to_string(nconn) +
-                      ",\"pipe\":" + (c->pipe ? "1" : "0") + ",\"depth\":" + std::to_string(c->depth) +
-                      ",\"slow\":" + (c->slow ? "1" : "0") + ",\"slow_us\":" + std::to_string(c->slowUs) +
-                      ",\"read_chunk\":" + std::to_string(c->readChunk) + ",\"rcvbuf\":" + std::to_string(c->rcvbuf) +
-                      ",\"defh\":" + (defHandler ? "1" : "0") + ",\"sendcap\":" + std::to_string(sendcap) +
-                      ",\"profile\":" + vf::jstr(profile) +
-                      ",\"eof\":" + vf::jstr(c->eof) + ",\"stop\":" + vf::jstr(c->stop) +
-                      ",\"send_err\":" + (c->sendErr ? "1" : "0") + ",\"segments\":" + std::to_string(c->segments) +
-                      ",\"t_connect\":" + std::to_string(c->tConnect) + ",\"t_last_send\":" + std::to_string(c->tLastSend) +
-                      ",\"t_last_byte\":" + std::to_string(c->tLastByte) + ",\"t_eof\":" + std::to_string(c->tEof) +
-                      ",\"t_end\":" + std::to_string(c->tEnd) + ",\"reqs\":[";
-      for (size_t i = 0; i < c->reqs.size(); i++)
-      {
-        if (i) s += ",";
-        s += jReq(c->reqs[i], gLog.get(c->reqs[i].token), i < c->sendNs.size() ? c->sendNs[i] : 0,
-                  i < c->rxAtSend.size() ? c->rxAtSend[i] : 0);
-      }
-      s += "],\"rx\":\"" + vf::hex(c->rx) + "\"}";
-      O.line(s);
-      O.obs("h_connections");
-      O.obs("h_requests_sent", c->reqs.size());
+      emitConn(*c, nconn, defHandler, sendcap, profile);
     }
   }
   auto &sp = vf::shim::sockPolicy();
